@@ -68,6 +68,12 @@ func usesBodies(T string) [][]*ir.S {
 		{ir.Cont("ge"), ir.Leaf("gl2", T), ir.N("choice", "gce", ir.N("case", "emptycase"), ir.Leaf("gcs", T))},
 		// choices nested below shorthand members of other choices
 		{ir.N("choice", "och", ir.Cont("oc", ir.N("choice", "ich", ir.Leaf("il", T), ir.N("case", "ick", ir.Leaf("ikl", "string")))), ir.N("list", "ol", ir.N("choice", "lch", ir.Leaf("ll2", T))))},
+		// awkward but legal names: statement keywords (a container named input inside an rpc's input),
+		// siblings that differ only in case, dots, dashes, a lone underscore, numeric suffixes whose
+		// natural and lexicographic orders differ
+		{ir.Cont("input", ir.Leaf("type", T), ir.Leaf("Type", T), ir.Cont("output", ir.Leaf("default", T), ir.Leaf("config", "string"))),
+			ir.Leaf("a.b", T), ir.Leaf("a-b", T), ir.Leaf("_", T), ir.Leaf("e10", T), ir.Leaf("e9", T),
+			ir.N("choice", "case", ir.N("case", "choice", ir.Leaf("uses", "string")), ir.Leaf("leaf", T))},
 	}
 }
 
